@@ -358,3 +358,91 @@ def nontrivial_mt(case, obs):
 FAMILIES.append(Family("dispatch", gen_mt, oplists.run_case, oplists.model_expr, oplists.model_obs, oracle_mt, nontrivial_mt,
                        imports=["Model.Core", "Model.Prog"], project=oplists.project, describe=oplists.describe,
                        shard=20, coq_shard=60, case_timeout=60))
+
+
+# ---- continuations of DIFFERENT tasks that overlap in time (worker threads), often continuing from the same level ----
+def gen_overlap(rng, tier):
+    out = []
+    for _ in range(40 if tier == "quick" else 600):
+        n = rng.choice([2, 2, 3, 4])
+        same = rng.random() < 0.7
+        k = rng.randrange(0, 4)
+        out.append({"tasks": [{"before": k if same else rng.randrange(0, 4), "via": rng.choice(["bytes", "str", "preserve"]),
+                               "logs": rng.randrange(1, 4)} for _ in range(n)]})
+    return out
+
+
+def impl_overlap(case):
+    import threading
+    from eliot import _output, start_action, log_message, current_action, Action, preserve_context
+    d = _output.Destinations()
+    _output.Logger._destinations = d
+    got = []
+    d.add(lambda m: got.append(dict(m)))
+    n = len(case["tasks"])
+    barrier = threading.Barrier(n)
+    errors, ids, seen = [], [], {}
+
+    def body(i, t):
+        a = current_action()
+        seen[i] = [a.task_uuid if a is not None else None]
+        barrier.wait(20)
+        for j in range(t["logs"]):
+            log_message("overlap:in", i=i, j=j)
+        barrier.wait(20)
+
+    workers = []
+    for i, t in enumerate(case["tasks"]):
+        with start_action(action_type="overlap:task", i=i) as act:
+            for j in range(t["before"]):
+                log_message("overlap:before", i=i)
+            if t["via"] == "preserve":
+                f = preserve_context(lambda i=i, t=t: body(i, t))
+                ids.append(None)
+            else:
+                tid = act.serialize_task_id()
+                tid = tid.decode("ascii") if t["via"] == "str" else tid
+                ids.append(tid if isinstance(tid, str) else tid.decode("ascii"))
+
+                def f(i=i, t=t, tid=tid):
+                    with Action.continue_task(task_id=tid):
+                        body(i, t)
+            uuid = act.task_uuid
+
+        def run(f=f, i=i):
+            try:
+                f()
+            except BaseException as e:
+                errors.append("task %d: %s: %s" % (i, type(e).__name__, e))
+        workers.append((threading.Thread(target=run), uuid))
+    for w, _ in workers:
+        w.start()
+    for w, _ in workers:
+        w.join(30)
+    return {"errors": errors, "uuids": [u for _, u in workers], "seen": [seen.get(i) for i in range(n)],
+            "msgs": [[m.get("task_uuid"), m.get("task_level"), m.get("message_type") or m.get("action_type"), m.get("action_status"), m.get("i")]
+                     for m in got]}
+
+
+def oracle_overlap(case, obs):
+    if obs["errors"]:
+        return "a continuation raised: %s" % obs["errors"][0]
+    for i, t in enumerate(case["tasks"]):
+        u = obs["uuids"][i]
+        pos = t["before"] + 2          # start message, the messages before, then the reserved position
+        if obs["seen"][i] is None or obs["seen"][i][0] != u:
+            return "worker %d ran with current action of task %r, its own task is %r" % (i, obs["seen"][i], u)
+        mine = [m for m in obs["msgs"] if m[2] == "overlap:in" and m[4] == i]
+        if len(mine) != t["logs"]:
+            return "worker %d logged %d messages, %d arrived" % (i, t["logs"], len(mine))
+        for m in mine:
+            if m[0] != u or m[1][:1] != [pos] or len(m[1]) != 2:
+                return "a message logged by worker %d inside its continuation of task %s sits at %r of task %s" % (i, u[:8], m[1], m[0][:8])
+        remote = [m for m in obs["msgs"] if m[0] == u and m[2] == "eliot:remote_task"]
+        if sorted(m[3] for m in remote) != ["started", "succeeded"] or any(m[1][:1] != [pos] for m in remote):
+            return "task %d: remote-task start/end messages are %r" % (i, [[m[1], m[3]] for m in remote])
+    return None
+
+
+FAMILIES.append(Family("overlapping_continuations", gen_overlap, impl_overlap, None, None, oracle_overlap,
+                       lambda case, obs: json.dumps(case), shard=20, case_timeout=90))
